@@ -2,6 +2,9 @@ package main
 
 import (
 	"go/token"
+	"go/types"
+	"sort"
+	"strconv"
 	"strings"
 
 	"golang.org/x/tools/go/ssa"
@@ -11,7 +14,7 @@ func init() {
 	register(&propCheck{
 		id:    "C03",
 		level: "other",
-		explanation: "Static necessary conditions of the unzip resource limits: each configured limit is compared at a place where the comparison can bound what it is meant to bound, on every path. All rules are evaluated on the control-flow graph pruned under 'limits apply' (the false successor of every branch on limits.Apply() — and, for depth, on GetMaxDepth() >= 0 — is removed: with NoLimits nothing is promised). (W1) the copy of an entry into the destination is preceded by the comparison of its declared size with GetMaxFileSize() whose failing side is a 'too large' error exit, and the number of bytes copied is that declared size; zip.NewReader is preceded by the archive-size comparison; (W2) in the entry loop every cyclic path that increments the file counter or the byte total also passes the comparison of that counter with GetMaxFileCount()/GetMaxTotalSize(); (W3) the totals returned by the nested extraction are added to the parent's counters, the same limits object is handed down and the depth strictly grows on the recursive cycle; unzip returns the counters' values; (W4) every entry creation in the loop is preceded by the depth comparison; (W5) lying headers: the copy is bounded by the declared size, so archive/zip only gets to compare the header's size and checksum with the data if the entry's reader is read on afterwards — on every path from the successful copy to a successful return the reader is read once more and the outcome is examined. Decided on SSA; nothing is executed. Not decided: the arithmetic (off-by-one of > vs >=, uint64 wrap), what archive/zip verifies at the end of an entry (library contract), what is on disk when an error is returned.",
+		explanation: "Static necessary conditions of the unzip resource limits: each configured limit is compared at a place where the comparison can bound what it is meant to bound, on every path. All rules are evaluated on the control-flow graph pruned under 'limits apply' (the false successor of every branch on limits.Apply() — and, for depth, on GetMaxDepth() >= 0 — is removed: with NoLimits nothing is promised). (W1) the copy of an entry into the destination is preceded by the comparison of its declared size with GetMaxFileSize() whose failing side is a 'too large' error exit, and the number of bytes copied is that declared size; zip.NewReader is preceded by the archive-size comparison; (W2) in the entry loop every cyclic path that increments the file counter or the byte total also passes the comparison of that counter with GetMaxFileCount()/GetMaxTotalSize(); (W3) the totals returned by the nested extraction are added to the parent's counters, the same limits object is handed down and the depth strictly grows on the recursive cycle; unzip returns the counters' values; (W4) every entry creation in the loop is preceded by the depth comparison; (W6) every way round the loop that creates an entry — the directory of a directory entry, an extracted file — increments the file counter or adds the nested count in that iteration (conditions with identical operands, such as the two evaluations of 'is this name an archive', are taken to agree within an iteration); (W5) lying headers: the copy is bounded by the declared size, so archive/zip only gets to compare the header's size and checksum with the data if the entry's reader is read on afterwards — on every path from the successful copy to a successful return the reader is read once more and the outcome is examined. Decided on SSA; nothing is executed. Not decided: the arithmetic (off-by-one of > vs >=, uint64 wrap), what archive/zip verifies at the end of an entry (library contract), what is on disk when an error is returned.",
 		run:   runC03,
 		assumptions: []string{
 			"safeio.CopyNWithContext writes at most the number of bytes it is given (io.CopyN)",
@@ -141,6 +144,7 @@ func (c *Ctx) errorKindOnEdge(f *ssa.Function, b *ssa.BasicBlock, kind string) (
 func runC03(c *Ctx) {
 	c.rule("W1", "per-file bound precedes the write (declared size vs GetMaxFileSize, 'too large' on the failing side, bytes copied = declared size); archive size checked before zip.NewReader", 2)
 	c.rule("W5", "an archive whose headers contradict its data is refused: after the bounded copy of an entry its reader is read on (the zip reader compares size and checksum with the header only at the end of the entry), and an error or a surplus byte is an error exit, on every path to a successful return", 1)
+	c.rule("W6", "every way round the entry loop that creates an entry (the directory of a directory entry, an extracted file) increments the file counter — or adds the nested extraction's count — in that same iteration; branch conditions with identical operands are taken to agree within one iteration", 2)
 	c.rule("W2", "every cyclic path of the entry loop that increments a running total passes that total's comparison with its limit", 3)
 	c.rule("W3", "nested totals are added to the parent's counters; the same limits and a strictly larger depth go down the recursion; unzip returns its counters", 4)
 	c.rule("W4", "every entry creation in the loop (and the opening of the archive) is preceded by the depth comparison", 3)
@@ -181,6 +185,9 @@ func runC03(c *Ctx) {
 
 	// ---- W2b: the bytes of every extracted entry reach the running total
 	c.c03Accounted(unzip, uzf)
+
+	// ---- W6: every entry created is counted
+	c.c03Counted(unzip, uzf)
 
 	// ---- W3 -----------------------------------------------------------------
 	c.c03Nested(unzip, nested)
@@ -793,4 +800,312 @@ func (c *Ctx) c03EndOfEntry(uzf *ssa.Function) {
 		}
 	}
 	c.ok("W5", key, c.ipos(probes[0]), "the entry's reader is read on after the bounded copy and the outcome is examined before success")
+}
+
+// exprKey: a canonical text for a pure-looking expression, so that two evaluations of the same condition within one
+// loop iteration (no common sub-expression elimination in go/ssa) can be recognised as the same condition.
+func exprKey(v ssa.Value, depth int) string {
+	if depth == 0 || v == nil {
+		return "?"
+	}
+	switch x := v.(type) {
+	case *ssa.Const:
+		return "const:" + x.String()
+	case *ssa.Parameter:
+		return "param:" + x.Name()
+	case *ssa.Call:
+		var b strings.Builder
+		if x.Call.IsInvoke() {
+			b.WriteString("invoke:" + x.Call.Method.Name() + "(" + exprKey(x.Call.Value, depth-1))
+		} else {
+			b.WriteString("call:" + calleeFull(&x.Call) + "(")
+		}
+		for _, a := range x.Call.Args {
+			b.WriteString("," + exprKey(a, depth-1))
+		}
+		b.WriteString(")")
+		return b.String()
+	case *ssa.UnOp:
+		if x.Op == token.MUL {
+			if fa, ok := x.X.(*ssa.FieldAddr); ok {
+				return "(" + exprKey(fa.X, depth-1) + ").f" + strconv.Itoa(fa.Field)
+			}
+		}
+		if x.Op == token.NOT {
+			return "!" + exprKey(x.X, depth-1)
+		}
+	case *ssa.FieldAddr:
+		return "&(" + exprKey(x.X, depth-1) + ").f" + strconv.Itoa(x.Field)
+	case *ssa.ChangeInterface:
+		return exprKey(x.X, depth-1)
+	case *ssa.MakeInterface:
+		return exprKey(x.X, depth-1)
+	}
+	return v.Name()
+}
+
+// cyclicPathCorrelated searches a path from the first instruction of loop header hdr, through an instruction
+// satisfying via, back to the header (or to an instruction satisfying exit), along which no instruction satisfies
+// stop and no pruned edge is taken. Conditions that are calls (or negations of calls) with identical operands are
+// given the same truth value along the path. It returns the via instruction of such a path, or nil.
+func cyclicPathCorrelated(f *ssa.Function, hdr *ssa.BasicBlock, via, stop, exit func(ssa.Instruction) bool, prune func(b *ssa.BasicBlock, k int) bool) ssa.Instruction {
+	type state struct {
+		b    *ssa.BasicBlock
+		seen bool
+		env  string
+	}
+	visited := map[state]bool{}
+	envStr := func(env map[string]bool) string {
+		ks := make([]string, 0, len(env))
+		for k, v := range env {
+			if v {
+				ks = append(ks, k+"=1")
+			} else {
+				ks = append(ks, k+"=0")
+			}
+		}
+		sort.Strings(ks)
+		return strings.Join(ks, ";")
+	}
+	var found ssa.Instruction
+	var walk func(b *ssa.BasicBlock, start int, seenVia ssa.Instruction, env map[string]bool, first bool)
+	walk = func(b *ssa.BasicBlock, start int, seenVia ssa.Instruction, env map[string]bool, first bool) {
+		if found != nil {
+			return
+		}
+		if !first {
+			st := state{b, seenVia != nil, envStr(env)}
+			if visited[st] {
+				return
+			}
+			visited[st] = true
+		}
+		for k := start; k < len(b.Instrs); k++ {
+			in := b.Instrs[k]
+			if !first || k > start {
+				if b == hdr && k == 0 {
+					if seenVia != nil {
+						found = seenVia
+					}
+					return
+				}
+			}
+			if exit != nil && exit(in) {
+				if seenVia != nil {
+					found = seenVia
+				}
+				return
+			}
+			if stop(in) {
+				return
+			}
+			if via(in) {
+				seenVia = in
+			}
+		}
+		ifi, isIf := b.Instrs[len(b.Instrs)-1].(*ssa.If)
+		for k, sc := range b.Succs {
+			if prune != nil && prune(b, k) {
+				continue
+			}
+			env2 := env
+			set := func(key string, val bool) {
+				n := make(map[string]bool, len(env2)+1)
+				for a, bv := range env2 {
+					n[a] = bv
+				}
+				n[key] = val
+				env2 = n
+			}
+			if isIf {
+				v, ts := boolTest(ifi)
+				val := k == ts
+				key := ""
+				switch x := v.(type) {
+				case *ssa.Call:
+					key = exprKey(x, 6)
+				case *ssa.Phi:
+					// a short-circuit result: its value was fixed by the edge it was entered through
+					if known, ok := env["phi:"+x.Name()]; ok {
+						if known != val {
+							continue
+						}
+					}
+					for a := range env {
+						if strings.HasPrefix(a, "alias:"+x.Name()+"=") {
+							key = strings.TrimPrefix(a, "alias:"+x.Name()+"=")
+							if strings.HasPrefix(key, "!") {
+								key = key[1:]
+								val = !val
+							}
+						}
+					}
+				}
+				if key != "" {
+					if known, ok := env[key]; ok {
+						if known != val {
+							continue
+						}
+					} else {
+						set(key, val)
+					}
+				}
+			}
+			// values of boolean phi nodes of the successor, as fixed by this edge
+			occ := 0
+			for kk := 0; kk < k; kk++ {
+				if b.Succs[kk] == sc {
+					occ++
+				}
+			}
+			j := -1
+			for pi, pb := range sc.Preds {
+				if pb == b {
+					if occ == 0 {
+						j = pi
+						break
+					}
+					occ--
+				}
+			}
+			if j >= 0 {
+				for _, in := range sc.Instrs {
+					phi, ok := in.(*ssa.Phi)
+					if !ok {
+						break
+					}
+					if bt, ok := phi.Type().Underlying().(*types.Basic); !ok || bt.Kind() != types.Bool {
+						continue
+					}
+					// forget what an earlier edge said
+					clean := make(map[string]bool, len(env2))
+					for a, bv := range env2 {
+						if a == "phi:"+phi.Name() || strings.HasPrefix(a, "alias:"+phi.Name()+"=") {
+							continue
+						}
+						clean[a] = bv
+					}
+					env2 = clean
+					e := phi.Edges[j]
+					if bv, isC := constBool(e); isC {
+						env2["phi:"+phi.Name()] = bv
+						continue
+					}
+					neg := false
+					for {
+						u, ok := e.(*ssa.UnOp)
+						if !ok || u.Op != token.NOT {
+							break
+						}
+						e = u.X
+						neg = !neg
+					}
+					if cl, ok := e.(*ssa.Call); ok {
+						k2 := exprKey(cl, 6)
+						if known, ok := env2[k2]; ok {
+							env2["phi:"+phi.Name()] = known != neg
+						} else if neg {
+							env2["alias:"+phi.Name()+"=!"+k2] = true
+						} else {
+							env2["alias:"+phi.Name()+"="+k2] = true
+						}
+					}
+				}
+			}
+			if sc == hdr {
+				if seenVia != nil {
+					found = seenVia
+					return
+				}
+				continue
+			}
+			walk(sc, 0, seenVia, env2, false)
+			if found != nil {
+				return
+			}
+		}
+	}
+	walk(hdr, 0, nil, map[string]bool{}, true)
+	return found
+}
+
+// c03Counted (W6): "no more than the configured number of files". The comparison with GetMaxFileCount() bounds
+// the counter (W2); the counter bounds what is on disk only if everything created is counted.
+func (c *Ctx) c03Counted(unzip, uzf *ssa.Function) {
+	// the file counter = the counter compared with GetMaxFileCount
+	var counter ssa.Value
+	for _, b := range unzip.Blocks {
+		if ifi, ok := b.Instrs[len(b.Instrs)-1].(*ssa.If); ok {
+			if x, _, ok := limitCmp(ifi, "GetMaxFileCount"); ok {
+				for _, l := range sources(x, deriveOpts{through: func(n string) bool { return strings.Contains(n, "/safecast.") }}) {
+					if cl, ok := l.(*ssa.Call); ok {
+						if cnt, m := counterOf(&cl.Call); cnt != nil && m == "Load" {
+							counter = cnt
+						}
+					}
+				}
+			}
+		}
+	}
+	if counter == nil {
+		c.violate("W6", fname(unzip)+"/counted", c.pos(unzip.Pos()), "no running file count compared with GetMaxFileCount()")
+		return
+	}
+	isInc := func(in ssa.Instruction) bool {
+		cl, ok := in.(*ssa.Call)
+		if !ok {
+			return false
+		}
+		cnt, m := counterOf(&cl.Call)
+		return cnt == counter && (m == "Inc" || m == "Add")
+	}
+	// creations: the extraction of a file, and MkDir of the very path that the extraction would use (the directory
+	// of a directory entry; the implicit parent of a file entry, MkDir(filepath.Dir(path)), is not an entry)
+	var extraction *ssa.Call
+	allInstrs(unzip, func(in ssa.Instruction) {
+		if cl, ok := in.(*ssa.Call); ok && staticCallee(&cl.Call) == uzf {
+			extraction = cl
+		}
+	})
+	if extraction == nil {
+		return
+	}
+	entryPath := resolveValue(extraction.Call.Args[2])
+	type site struct {
+		in   *ssa.Call
+		what string
+	}
+	sites := []site{{extraction, "extracted-file"}}
+	allInstrs(unzip, func(in ssa.Instruction) {
+		name, args, ok := fsMethodCall(in)
+		if ok && (name == "MkDir" || name == "MkDirAll") && len(args) > 0 && resolveValue(args[0]) == entryPath && inLoop(in) {
+			sites = append(sites, site{in.(*ssa.Call), "directory-entry"})
+		}
+	})
+	hdr := loopHeaderOf(extraction)
+	if hdr == nil {
+		c.undecided("W6", fname(unzip)+"/counted", c.ipos(extraction), "cannot determine the entry loop")
+		return
+	}
+	for _, st := range sites {
+		errs := errResultsOf(st.in)
+		var errV ssa.Value
+		if len(errs) > 0 {
+			errV = errs[0]
+		} else if isErrorType(st.in.Type()) {
+			errV = st.in
+		}
+		prune := func(b *ssa.BasicBlock, k int) bool {
+			if ifi, ok := b.Instrs[len(b.Instrs)-1].(*ssa.If); ok && errV != nil {
+				if x, nilSucc, ok := nilTest(ifi); ok && sameValue(x, errV) {
+					return k != nilSucc
+				}
+			}
+			return false
+		}
+		hit := cyclicPathCorrelated(unzip, hdr, func(i ssa.Instruction) bool { return i == ssa.Instruction(st.in) }, isInc,
+			func(i ssa.Instruction) bool { return isReturnOK(unzip, i) }, prune)
+		c.check(hit == nil, "W6", fname(unzip)+"/counted/"+st.what, c.ipos(st.in), "every iteration that creates this kind of entry counts it (or adds the nested count)",
+			"there is a way round the entry loop that creates this entry without the file counter having been incremented in that iteration: such entries are not bounded by GetMaxFileCount() (and are missing from the list returned)")
+	}
 }
